@@ -161,7 +161,11 @@ void harness(void) {
 			VF_ASSERT(vf_log_tpt[j] == &thr[0], "recv: delivered on the owning thread");
 		}
 	}
+#if VF_PIPE_CAP >= 96
 	if (vf_cb_calls == 2 && !vf_in_valid(&in, 0)) VF_CANARY("recv: resynchronised and delivered two");
+#else
+	if (vf_cb_calls == 1 && !vf_in_valid(&in, 0)) VF_CANARY("recv: resynchronised and delivered one");
+#endif
 	if (vf_cb_calls == 0 && r == VF_PIPE_CAP) VF_CANARY("recv: all garbage");
 #else
 	if (r == len) {		/* the whole content was read */
